@@ -71,6 +71,7 @@ void h_header_pack(void)
 #if defined(T_HEADER_ROUNDTRIP)
 void h_header_roundtrip(void)
 {
+    size_t g_any; g = g_any;        /* ghost index really arbitrary (file-scope statics are zero-initialised in harness mode) */
     /* (1) unpack(pack(h)) == h on all twelve header fields, for every header value */
     rfc1035_message h, h2;
     char wire[12];
@@ -200,6 +201,7 @@ void h_nameunpack_term(void)
 #if defined(T_QUERYUNPACK)
 void h_queryunpack(void)
 {
+    size_t g_any; g = g_any;        /* ghost index really arbitrary (file-scope statics are zero-initialised in harness mode) */
     size_t sz; unsigned int off; rfc1035_query q;
     __CPROVER_assume(1 <= sz && sz <= N);
     char *buf = malloc(sz); __CPROVER_assume(buf != NULL);
@@ -224,6 +226,7 @@ void h_queryunpack(void)
 #if defined(T_RRUNPACK)
 void h_rrunpack(void)
 {
+    size_t g_any; g = g_any;        /* ghost index really arbitrary (file-scope statics are zero-initialised in harness mode) */
     size_t sz; unsigned int off; rfc1035_rr RR;
     __CPROVER_assume(1 <= sz && sz <= N);
     char *buf = malloc(sz); __CPROVER_assume(buf != NULL);
@@ -251,9 +254,15 @@ void h_rrunpack(void)
 #if defined(T_MESSAGE)
 void h_message(void)
 {
+    size_t g_any; g = g_any;        /* ghost index really arbitrary (file-scope statics are zero-initialised in harness mode) */
     size_t sz;
     __CPROVER_assume(sz <= N);                       /* ANY datagram of at most N octets, including the empty one */
     char *buf = malloc(sz); __CPROVER_assume(buf != NULL);
+#ifdef ANMAX
+    /* BOUND (labelled): the ANCOUNT field (octets 6,7) is at most ANMAX.  cbmc does not finish with the up-to-18-MB
+     * answer array that an arbitrary ANCOUNT makes xcalloc allocate. */
+    __CPROVER_assume(sz < 8 || spec_be16(buf + 6) <= ANMAX);
+#endif
     rfc1035_message *ans = NULL;                    /* as the only caller (idnsGrokReply) initialises it */
     int n = rfc1035MessageUnpack(buf, sz, &ans);
     __CPROVER_assert(n >= -15 && n < KMAX, "ensures: result is -15..-1 (error), 0, or a record count that fits the datagram");
